@@ -4,6 +4,7 @@
   can leave behind.
 -/
 import Spec.StoreInv
+import Proofs.StoreFlag
 
 namespace MongoModel.Proofs.C08Lemmas
 open MongoModel MongoModel.Spec
@@ -172,6 +173,54 @@ theorem passL_bump (now : Int) (l : List Index) (c : Coll) (n : Nat) :
 theorem expire_bump (now : Int) (c : Coll) (n : Nat) :
     expire now { c with nextOid := n } = (expire now c).map (fun x => { x with nextOid := n }) := by
   rw [expire_eq, expire_eq]; exact passL_bump now _ c n
+
+/-- the pass stores nothing: an empty collection stays empty -/
+theorem passL_docs_nil (now : Int) (l : List Index) (c c' : Coll) (h : passL now l c = .ok c')
+    (e : c.docs = []) : c'.docs = [] := by
+  induction l generalizing c with
+  | nil => simp [passL] at h; subst h; exact e
+  | cons ix r ih =>
+    simp only [passL] at h
+    cases hp : ixPred now ix with
+    | error e => simp [hp] at h
+    | ok P =>
+      simp only [hp] at h
+      exact ih _ h (by simp [filt, e])
+
+theorem expire_docs_nil (now : Int) (c c' : Coll) (h : expire now c = .ok c') (e : c.docs = []) :
+    c'.docs = [] := by
+  rw [expire_eq] at h; exact passL_docs_nil now _ c c' h e
+
+/-! ### the created flag -/
+
+theorem filt_flag (P : Val → Bool) (c : Coll) (f : Bool) :
+    filt P { c with forceCreated := f } = { filt P c with forceCreated := f } := by
+  simp [filt]
+
+theorem passL_flag (now : Int) (l : List Index) (c : Coll) (f : Bool) :
+    passL now l { c with forceCreated := f } =
+      (passL now l c).map (fun x => { x with forceCreated := f }) := by
+  induction l generalizing c with
+  | nil => simp [passL, Except.map]
+  | cons ix r ih =>
+    simp only [passL]
+    cases ixPred now ix with
+    | error e => simp [Except.map]
+    | ok P => simp only [filt_flag, ih]
+
+theorem expire_flag (now : Int) (c : Coll) (f : Bool) :
+    expire now { c with forceCreated := f } =
+      (expire now c).map (fun x => { x with forceCreated := f }) := by
+  rw [expire_eq, expire_eq]; exact passL_flag now _ c f
+
+/-- the expiry pass commutes with the mark a rejected insert leaves on the created flag -/
+theorem expire_markStored (now : Int) (c : Coll) (b : Bool) :
+    expire now (c.markStored b) = (expire now c).map (fun x => x.markStored b) := by
+  cases b with
+  | false =>
+    rw [markStored_false]
+    cases expire now c <;> simp [Except.map]
+  | true => exact expire_flag now c true
 
 theorem expire_fields (now : Int) (c c' : Coll) (h : expire now c = .ok c') :
     c'.indexes = c.indexes ∧ c'.ttlIndexes = c.ttlIndexes ∧ c'.forceCreated = c.forceCreated ∧
